@@ -243,7 +243,8 @@ def op2w(op):
         if k == 'call':
             d['tok'] = op['tok']
         else:
-            d['cb'] = None if cb is None else {'tok': cb['tok'], 'kind': 'coro' if cb.get('coro') else 'fn'}
+            d['cb'] = None if cb is None else {'tok': cb['tok'], 'kind': 'raises' if cb.get('raises') else
+                                               'coro' if cb.get('coro') else 'fn'}
         return d
     if k == 'disconnect':
         return {'op': 'disconnect'}
@@ -264,12 +265,14 @@ def run_impl_op(w, op):
     elif k == 'emit':
         cb = op.get('cb')
         res = w.emit(op['ev'], op['data'], op['ns'],
-                     callback=None if cb is None else w.callback(cb['tok'], cb.get('coro', False), cb.get('susp', False)),
+                     callback=None if cb is None else w.callback(cb['tok'], cb.get('coro', False), cb.get('susp', False),
+                                                                 cb.get('raises', False)),
                      reacts=op['reacts'])
     elif k == 'send':
         cb = op.get('cb')
         res = w.send(op['data'], op['ns'],
-                     callback=None if cb is None else w.callback(cb['tok'], cb.get('coro', False), cb.get('susp', False)),
+                     callback=None if cb is None else w.callback(cb['tok'], cb.get('coro', False), cb.get('susp', False),
+                                                                 cb.get('raises', False)),
                      reacts=op['reacts'])
     elif k == 'call':
         res = w.call(op['ev'], op['data'], op['ns'], reacts=op['reacts'])
@@ -294,6 +297,12 @@ def run_ops(w, ops, sink):
     i = 0
     while i < len(ops):
         b = ops[i].get('burst')
+        if ops[i].get('reent') is not None and i + 1 < len(ops) and ops[i + 1].get('reent') == ops[i]['reent']:
+            res = w.reentrant(ops[i]['e'])
+            for op, (t, sn) in zip(ops[i:i + 2], res):
+                sink(op, {'trace': t, 'res': None, 'snap': sn})
+            i += 2
+            continue
         if b is None:
             sink(ops[i], run_impl_op(w, ops[i]))
             i += 1
@@ -655,7 +664,7 @@ class HistoryGen:
         else:
             if rng.random() < (0.7 if self.profile == 'c09' else 0.35):
                 op['cb'] = {'tok': self.new_tok(), 'coro': bool(self.is_async and rng.random() < 0.5),
-                            'susp': rng.random() < 0.6}
+                            'susp': rng.random() < 0.6, 'raises': rng.random() < 0.25}
             else:
                 op['cb'] = None
             if will_send:
@@ -663,6 +672,8 @@ class HistoryGen:
                 if op['cb'] is not None and r < 0.3:
                     args = [self.value(0.2) for _ in range(rng.randint(0, 3))]
                     op['reacts'] = srv_frames(ACK, args, ns, nid)
+                    if rng.random() < 0.4:
+                        op['reacts'] += srv_frames(ACK, args, ns, nid)       # the same ACK again
                 elif r < 0.45:
                     op['reacts'] = self.noise(2)
                 elif r < 0.5:
@@ -712,6 +723,13 @@ class HistoryGen:
             return [self.op_emit(True)]
         if r < wts[1]:
             return [self.op_emit(False)]
+        user_out = [(n_, i_) for n_, m_ in v.out.items() for i_, (t_, k_) in m_.items() if k_ != 'call']
+        if r < wts[2] and user_out and rng.random() < (0.25 if self.profile == 'c09' else 0.08):
+            # an ACK and its duplicate; threaded client: the duplicate arrives from inside the callback
+            self.nburst = getattr(self, 'nburst', 0) + 1
+            n_, i_ = rng.choice(user_out)
+            f = srv_frames(ACK, [self.value(0.0) for _ in range(rng.randint(0, 2))], n_, i_)[0]
+            return [{'op': 'ev', 'e': f, 'reent': self.nburst}, {'op': 'ev', 'e': f, 'reent': self.nburst}]
         if r < wts[2] and rng.random() < (0.3 if self.profile == 'c09' else 0.1):
             # a burst: several packets arrive while the handlers of the earlier ones are still running
             self.nburst = getattr(self, 'nburst', 0) + 1
@@ -1029,6 +1047,8 @@ class Oracle:
             else:
                 tok, kind = hit
                 self.stat('srv.ack.matched')
+                if kind == 'raises':
+                    self.stat('srv.ack.matched.callback_raises')
                 v.acked.setdefault(ns, set()).add(pid)
                 args = list(data) if isinstance(data, list) else None
                 if args is None:
@@ -1076,6 +1096,8 @@ class Oracle:
         if k == 'ev':
             if op.get('burst'):
                 self.stat('op.ev.in_burst')
+            if op.get('reent'):
+                self.stat('op.ev.ack_with_duplicate_from_inside_callback')
             play([op['e']], False)
             if top:
                 self.bad('C08.mirror', 'output outside the event: %r' % (top,))
@@ -1113,7 +1135,8 @@ class Oracle:
                                          % (pid, ns, sorted(v.out.get(ns, {}))))
                             else:
                                 tok = op['tok'] if k == 'call' else op['cb']['tok']
-                                v.out.setdefault(ns, {})[pid] = (tok, 'call' if k == 'call' else 'fn')
+                                v.out.setdefault(ns, {})[pid] = (tok, 'call' if k == 'call' else
+                                                                 'raises' if op['cb'].get('raises') else 'fn')
                                 v.ctr[ns] = pid
                                 if sum(pid in m for m in v.out.values()) > 1:
                                     self.stat('ids.equal_on_two_namespaces')
